@@ -125,7 +125,9 @@ class database(fs_template.FsBased):
             except OSError as e:
                 raise KeyError(d, f"access failure: {e}") from e
             for l in subdirs:
-                if l.endswith(".cpickle"):
+                if l.endswith(".cpickle") or l.startswith(".update."):
+                    # pickled side data, resp. an entry _setitem is still
+                    # writing (or that a crash left behind): not a package.
                     continue
                 p = pjoin(d, l)
                 try:
